@@ -26,6 +26,10 @@ pub struct Case {
     pub port0: bool,
     /// deliver the judged downlink as a Class C reception (must neither execute nor clear)
     pub class_c_delivery: bool,
+    /// the Class C reception arrives while the device listens between two transactions (rxc_listen), with the
+    /// answers of the prior downlinks still waiting for their uplink
+    #[serde(default)]
+    pub class_c_idle: bool,
 }
 
 pub enum Dev {
@@ -78,6 +82,20 @@ impl Dev {
                 }
             }
         }
+    }
+    /// Idle Class C listening (async front-end): the frames are heard by `rxc_listen()`.
+    pub fn listen(&mut self, frames: Vec<Frame>) -> Obs {
+        let mut accepted = false;
+        let mut panic = None;
+        if let Dev::As(a) = self
+            && let Some(st) = a.apply(&AEv::Listen { frames, fault_at: None })
+        {
+            if let AResp::Panic(p) = &st.resp {
+                panic = Some(p.clone());
+            }
+            accepted = st.deliveries.iter().any(|d| matches!(d.judge, Judge::Accept { .. }));
+        }
+        Obs { tx: None, accepted, panic, after: self.snap(), tx_rf: None }
     }
     /// One uplink transaction; `rx1` delivered in RX1, `rxc` as Class C receptions before RX1.
     pub fn cycle(&mut self, rx1: Option<Frame>, rxc: Vec<Frame>) -> Obs {
@@ -173,12 +191,20 @@ pub fn eval(c: &Case) -> Vec<(String, String)> {
             return vec![(format!("C08|{front}|panic|{}", panic_site(&p)), p)];
         }
         // flush its one-shot answers and acknowledge its sticky ones
-        dev.cycle(Some(down(&[], false)), vec![]);
+        if !c.class_c_idle {
+            dev.cycle(Some(down(&[], false)), vec![]);
+        }
     }
     let s0 = dev.snap();
     let pend0 = pending_of(&s0);
     // ---- the judged downlink
-    let o = if c.class_c_delivery { dev.cycle(None, vec![down(&c.cmd.bytes, c.port0)]) } else { dev.cycle(Some(down(&c.cmd.bytes, c.port0)), vec![]) };
+    let o = if c.class_c_idle {
+        dev.listen(vec![down(&c.cmd.bytes, c.port0)])
+    } else if c.class_c_delivery {
+        dev.cycle(None, vec![down(&c.cmd.bytes, c.port0)])
+    } else {
+        dev.cycle(Some(down(&c.cmd.bytes, c.port0)), vec![])
+    };
     if let Some(p) = o.panic {
         return vec![(format!("C08|{front}|panic|{}", panic_site(&p)), format!("{p}; command {}", hex(&c.cmd.bytes)))];
     }
@@ -409,6 +435,7 @@ pub fn run(tier: Tier, replay: Option<&str>) {
                         cmd: cmd.clone(),
                         port0,
                         class_c_delivery: cc,
+                        class_c_idle: false,
                     };
                     for (i, c) in singles.iter().chain(blocks.iter()).enumerate() {
                         if reduce && i % 23 != 0 {
@@ -505,7 +532,11 @@ pub fn run(tier: Tier, replay: Option<&str>) {
             .flat_map(|(_, c)| {
                 let mut v = vec![];
                 for prior in [vec![], vec![vec![0x08u8, 0x02]]] {
-                    v.push(Case { front: "async-c".into(), dev: dev.clone(), base: "fresh".into(), prior, cmd: c.clone(), port0: false, class_c_delivery: true });
+                    v.push(Case { front: "async-c".into(), dev: dev.clone(), base: "fresh".into(), prior, cmd: c.clone(), port0: false, class_c_delivery: true, class_c_idle: false });
+                }
+                // heard while idle, with one-shot and sticky answers of the preceding Class A downlink still unsent
+                for prior in [vec![vec![0x06u8]], vec![cmds::link_adr(15, 15, 0x00FF, 6, 1, false).bytes], vec![vec![0x08u8, 0x02, 0x06]]] {
+                    v.push(Case { front: "async-c".into(), dev: dev.clone(), base: "fresh".into(), prior, cmd: c.clone(), port0: false, class_c_delivery: true, class_c_idle: true });
                 }
                 v
             })
@@ -526,7 +557,7 @@ pub fn run(tier: Tier, replay: Option<&str>) {
         "samples": samples,
         "evaluations": ctx.evals(),
         "distinct_nontrivial": nontrivial.load(Ordering::Relaxed),
-        "rule": "each case is a history on a fresh real device: base state (fresh / CFList join / sparse mask / extra channels / high data rate), 0-2 prior command downlinks, the judged downlink (FOpts or port 0), then uplinks and an acknowledging downlink. Judged downlinks: the full value domain of LinkADRReq (DR x TXPower x ChMaskCntl x mask patterns x NbTrans x RFU bit), LinkADRReq blocks, RXParamSetupReq (all 256 DLSettings x frequency set), RXTimingSetupReq (all 256), NewChannelReq (index x frequency set x DrRange bytes), DlChannelReq, DevStatusReq; k x DevStatusReq followed by two further requests (answer budget at every position); Class C deliveries; port-0 requests in sessions whose downlink counter is beyond 16 bits. non-trivial = judged stream contains at least one request",
+        "rule": "each case is a history on a fresh real device: base state (fresh / CFList join / sparse mask / extra channels / high data rate), 0-2 prior command downlinks, the judged downlink (FOpts or port 0), then uplinks and an acknowledging downlink. Judged downlinks: the full value domain of LinkADRReq (DR x TXPower x ChMaskCntl x mask patterns x NbTrans x RFU bit), LinkADRReq blocks, RXParamSetupReq (all 256 DLSettings x frequency set), RXTimingSetupReq (all 256), NewChannelReq (index x frequency set x DrRange bytes), DlChannelReq, DevStatusReq; k x DevStatusReq followed by two further requests (answer budget at every position); Class C deliveries (between TX and RX1, and while idle in rxc_listen with the answers of the preceding Class A downlink still unsent); port-0 requests in sessions whose downlink counter is beyond 16 bits. non-trivial = judged stream contains at least one request",
         "regions": regions,
         "exhaustive": true,
     });
